@@ -14,6 +14,7 @@ RULE = ('exhaustive part: every (target over {A,G} of length 0..9, query of leng
         'non-trivial = the reference finds >= 2 occurrences of which at least two overlap')
 ASSUMPTIONS = [
     'reference occurrences are computed on the plain-data model (character comparison + modification multiset per position)',
+    'a global static rule denotes modifications of its target residues / termini: target and query are compared with their rules written out, in the ordered search as in the unordered test (a global isotope label is compared literally, as the documented examples do)',
     'random part: residue, terminal, isotope-label and static-rule annotations only (the property is silent on intervals, labile and unknown-position modifications)',
 ]
 
@@ -101,10 +102,12 @@ def plain_cases():
 def _occurrences(target, query):
     """offsets where residues match and the target's annotations on that stretch equal the query's"""
     L = len(query['seq'])
-    qp = model.sorted_proj(model.expected(query))
+    # a global static rule is a way of writing modifications on residues / termini: both sides are compared with their rules
+    # written out (the unordered test does the same); a global isotope label is compared literally (documented examples)
+    qp = model.sorted_proj(model.expected(model.expand_static(query)))
     out = []
     for i in model.find_all(target['seq'], query['seq']):
-        sl = model.m_slice(target, i, i + L)
+        sl = model.expand_static(model.m_slice(target, i, i + L))
         if model.sorted_proj(model.expected(sl)) == qp:
             out.append(i)
     return out
@@ -236,7 +239,7 @@ def mod_strategy():
             i = draw(st.integers(0, n - 1))
             j = draw(st.integers(i + 1, min(n, i + 6)))
             q = model.m_slice(target, i, j)
-            kind = draw(st.sampled_from(['cut', 'cut', 'cut', 'drop-mod', 'add-mod', 'residue', 'strip-global']))
+            kind = draw(st.sampled_from(['cut', 'cut', 'cut', 'drop-mod', 'add-mod', 'residue', 'strip-global', 'explicit-static']))
             if kind == 'drop-mod' and q['internal']:
                 q['internal'].pop(draw(st.integers(0, len(q['internal']) - 1)))
             elif kind == 'add-mod':
@@ -247,6 +250,8 @@ def mod_strategy():
             elif kind == 'residue':
                 k = draw(st.integers(0, len(q['seq']) - 1))
                 q['seq'] = q['seq'][:k] + draw(st.sampled_from('AGK')) + q['seq'][k + 1:]
+            elif kind == 'explicit-static':
+                q = model.expand_static(q)  # the same modified residues, written on the residues instead of as a rule
             elif kind == 'strip-global':
                 q['isotope'] = []
                 q['static'] = []
